@@ -15,6 +15,11 @@
 (*   Magnitude m * 10^e, e in {-10, -9, -8, 8, 9, 10}: both sides of the   *)
 (*             1e9 / 1e-9 switch to exponent notation                      *)
 (*                                                                         *)
+(*   Big       (a^k + s)/(c^j + t) for a in {2, 7, 10}, k in BigKs,        *)
+(*             c in {3, 10}, j in {0, 50, 400}: values of hundreds to      *)
+(*             thousands of bits (exponent notation with long exponents)   *)
+(*             by the stride StrideBig                                     *)
+(*                                                                         *)
 (* The default mode is printed for every value; the other modes for the    *)
 (* values selected by a stride over a hash of the value (StrideCheap for   *)
 (* sci / eng / frac / digits 0, 1, 5; StrideMid for digits 50; StrideLong  *)
@@ -24,7 +29,7 @@
 (***************************************************************************)
 EXTENDS BigNum, TLC, Json
 
-CONSTANTS Bases, Seed, SmallMax, MaxK, StrideCheap, StrideMid, StrideLong, StrideNeg
+CONSTANTS Bases, Seed, SmallMax, MaxK, StrideCheap, StrideMid, StrideLong, StrideNeg, BigKs, StrideBig
 
 VARIABLE c
 
@@ -80,12 +85,24 @@ Magnitude(b) ==
         den == IF up THEN NFromInt(m[2]) ELSE NMul(NFromInt(m[2]), te)
     IN c' = Case("magnitude", neg, num, den, b, e + m[1] + b)
 
+Big(b) ==
+  \E a \in {2, 7, 10}, k \in BigKs, cc \in {3, 10}, j \in {0, 50, 400}, s \in {-1, 1}, t \in {-1, 1} :
+    LET h == a * 11 + k * 3 + cc + j * 5 + s + 2 * t + b IN
+    /\ (h + Seed) % StrideBig = 0
+    /\ ~(j = 0 /\ t = -1)                                   \* c^0 - 1 = 0
+    /\ LET ak == NPow(<<a>>, k)
+           cj == NPow(<<cc>>, j)
+           num == IF s = 1 THEN NAddSmall(ak, 1) ELSE NSub(ak, <<1>>)
+           den == IF t = 1 THEN NAddSmall(cj, 1) ELSE NSub(cj, <<1>>)
+       IN \E neg \in NegFor(h) : c' = Case("big", neg, num, den, b, h)
+
 \* one action per family (the coverage gate of the engine wants each of them taken)
 GenSmall == c.f = "init" /\ \E b \in Bases : Small(b)
 GenBoundary == c.f = "init" /\ \E b \in Bases : Boundary(b)
 GenPeriod == c.f = "init" /\ \E b \in Bases : Period(b)
 GenMagnitude == c.f = "init" /\ \E b \in Bases : Magnitude(b)
-Next == GenSmall \/ GenBoundary \/ GenPeriod \/ GenMagnitude
+GenBig == c.f = "init" /\ \E b \in Bases : Big(b)
+Next == GenSmall \/ GenBoundary \/ GenPeriod \/ GenMagnitude \/ GenBig
 Spec == Init /\ [][Next]_c
 
 Emit == c.f # "init" => PrintT(<<"CASE", ToJson(c)>>)
